@@ -297,6 +297,11 @@ impl Ingester {
     /// WAL sync interval (default 100ms). This matches InfluxDB 3 and Prometheus
     /// behavior — fsync runs asynchronously on the configured interval.
     pub async fn write(&self, batch: RecordBatch) -> Result<()> {
+        // A batch without rows has nothing to store (and no first row to derive a shard
+        // from): e.g. a remote-write request whose series carry no samples.
+        if batch.num_rows() == 0 {
+            return Ok(());
+        }
         let start_time = std::time::Instant::now();
         let batch_size = batch.get_array_memory_size();
         let row_count = batch.num_rows() as u64;
